@@ -35,6 +35,7 @@ type Exec struct {
 	visited    types.Object
 	rawVars    map[types.Object]bool
 	rangeKey   map[string]Term
+	final      *State
 }
 
 func (x *Exec) unsup(pos token.Pos, f string, a ...interface{}) {
